@@ -52,7 +52,7 @@ RenderSeg(s) ==
     CASE s.k = "prose" -> s.lines
       [] s.k = "fm"    -> <<Rule>> \o s.lines \o (IF s.term THEN <<Rule>> ELSE <<>>)
       [] s.k = "verb"  -> <<Open(s.n, s.lang, "")>> \o s.lines \o (IF s.term THEN <<Fence(s.cn)>> ELSE <<>>)
-      [] s.k = "scrut" -> <<Open(s.n, "scrut", s.cfg)>> \o s.com \o s.lines \o (IF s.term THEN <<Fence(s.cn)>> ELSE <<>>)
+      [] s.k = "scrut" -> <<Open(s.n, s.lang, s.cfg)>> \o s.com \o s.lines \o (IF s.term THEN <<Fence(s.cn)>> ELSE <<>>)
 
 RECURSIVE RenderDoc(_)
 RenderDoc(doc) == IF doc = <<>> THEN <<>> ELSE RenderSeg(Head(doc)) \o RenderDoc(Tail(doc))
@@ -137,11 +137,13 @@ TopLine ==
        ELSE run' = <<>> /\ UNCHANGED <<title, fresh>>
     /\ Consume
     /\ UNCHANGED <<doc, lines, mode, fence, cur, curcfg, curcom, startln, tests, err>>
-OpenVerbatim == mode = "top" /\ ~AtEnd /\ OpensFence(Line) /\ Line.lang # "scrut"
+\* the languages that mark a test block are a parameter of scrut (--markdown-languages); here: scrut and sh
+TestLangs == {"scrut", "sh"}
+OpenVerbatim == mode = "top" /\ ~AtEnd /\ OpensFence(Line) /\ Line.lang \notin TestLangs
                 /\ mode' = "verb" /\ fence' = Line.n /\ Consume
                 /\ err' = (err \/ Line.lang = "")                \* documented: language is mandatory
                 /\ UNCHANGED <<doc, lines, cur, curcfg, curcom, startln, run, title, fresh, tests>>
-OpenTest == mode = "top" /\ ~AtEnd /\ OpensFence(Line) /\ Line.lang = "scrut"
+OpenTest == mode = "top" /\ ~AtEnd /\ OpensFence(Line) /\ Line.lang \in TestLangs
             /\ mode' = "comments" /\ fence' = Line.n /\ curcfg' = Line.cfg /\ cur' = <<>> /\ curcom' = 0
             /\ Consume
             /\ UNCHANGED <<doc, lines, startln, run, title, fresh, tests, err>>
@@ -212,10 +214,18 @@ ScrutSegs  == {Scrut(n, "", <<>>, b, TRUE) : n \in {3, 4}, b \in Bodies}
                     \* an expectation that starts with a fence followed by text, and no bare fence of that length
                     Scrut(4, "", <<>>, <<Cmd("c1"), Open(3, "js", ""), Plain("inner")>>, TRUE),
                     \* an empty continuation line (`> `) and a command with trailing blanks
-                    Scrut(3, "", <<>>, <<Cmd("c1  "), Cont(""), Cont("c3"), Plain("out1")>>, TRUE)}
+                    Scrut(3, "", <<>>, <<Cmd("c1  "), Cont(""), Cont("c3"), Plain("out1")>>, TRUE),
+                    \* a continuation line whose text itself starts with the continuation marker
+                    Scrut(3, "", <<>>, <<Cmd("c1"), Cont("> c4"), Plain("out1")>>, TRUE),
+                    \* expectations with trailing blanks, and an indented fence-like line (content, not a closing fence)
+                    Scrut(3, "", <<>>, <<Cmd("c1"), Plain("trail  "), Plain("   ```"), Plain("after")>>, TRUE),
+                    \* a test block in the second registered language
+                    [Scrut(3, "", <<>>, <<Cmd("c1"), Plain("out1")>>, TRUE) EXCEPT !.lang = "sh"]}
 LongSegs == {LongClose(Verbatim(3, "bash", <<Cmd("not a test")>>, TRUE)), LongClose(Scrut(3, "", <<>>, <<Cmd("c1"), Plain("out1")>>, TRUE))}
 Segs == ProseSegs \cup VerbSegs \cup ScrutSegs \cup LongSegs
-Core == LongSegs \cup {Scrut(4, "", <<>>, <<Cmd("c1"), Open(3, "js", ""), Plain("inner")>>, TRUE),
+Core == LongSegs \cup {Scrut(3, "", <<>>, <<Cmd("c1"), Plain("trail  "), Plain("   ```"), Plain("after")>>, TRUE),
+         [Scrut(3, "", <<>>, <<Cmd("c1"), Plain("out1")>>, TRUE) EXCEPT !.lang = "sh"],
+         Scrut(4, "", <<>>, <<Cmd("c1"), Open(3, "js", ""), Plain("inner")>>, TRUE),
          Scrut(3, "", <<>>, <<Cmd("c1  "), Cont(""), Cont("c3"), Plain("out1")>>, TRUE)} \cup {Prose(Blank), Prose(Header), Prose(Tick2), Prose(Rule), Verbatim(3, "@U@{a}", <<Plain("echo")>>, TRUE),
          Verbatim(3, "bash", <<Cmd("not a test")>>, TRUE), Verbatim(4, "markdown", <<Open(3, "scrut", ""), Cmd("x"), Fence(3)>>, TRUE),
          Scrut(3, "", <<>>, <<Cmd("c1"), Plain("out1")>>, TRUE), Scrut(3, "{timeout: 3s}", <<Hash("a comment")>>, <<Cmd("c1"), Plain("out1")>>, TRUE),
